@@ -15,6 +15,14 @@ package main
 //   if ref != "" && ref[0] == '#' { …return }                                 → "hash-return"
 //   …, err := loader.resolveRef(…)  followed by  if err != nil { …return }    → "resolveRef"
 // A call that is not at top level has guard "nested". A tracked name used other than as a callee is `unrecognised`.
+//
+// argAssigns: how many assignment statements of the enclosing function assign the identifier given as location
+// argument (0 for a parameter that is never assigned; 1 for a variable set once).
+//
+// Rows with callee "return": every return statement of the functions that hand a location back
+// (resolveRefAndDocument, resolveRef, resolveRefPath, loadSingleElementFromURI); arg = text of the location result;
+// guard = the dominating guards for a top-level return, "in-hash-return" for a return inside the top-level
+// `if ref != "" && ref[0] == '#'` block, "in-err" inside a top-level `if …err != nil` block, else "nested".
 
 import (
 	"bytes"
@@ -50,7 +58,11 @@ var readSitePrimitives = map[string]bool{"os.ReadFile": true, "os.Open": true, "
 type readSiteRow struct {
 	fn, callee, guard, arg, lhs, pos string
 	argIsParam                       bool
+	argAssigns                       int
 }
+
+// index of the location among the results of the functions whose returns are recorded
+var readSiteReturns = map[string]int{"resolveRefAndDocument": 2, "resolveRef": 1, "resolveRefPath": 0, "loadSingleElementFromURI": 0}
 
 func read_exprText(fset *token.FileSet, e ast.Expr) string {
 	var b bytes.Buffer
@@ -173,11 +185,13 @@ func extractReadSites(repo string) (string, error) {
 				}
 			}
 			assigned := map[string]bool{}
+			assignCount := map[string]int{}
 			ast.Inspect(fd.Body, func(n ast.Node) bool {
 				if as, ok := n.(*ast.AssignStmt); ok {
 					for _, l := range as.Lhs {
 						if id, ok := l.(*ast.Ident); ok {
 							assigned[id.Name] = true
+							assignCount[id.Name]++
 						}
 					}
 				}
@@ -251,8 +265,11 @@ func extractReadSites(repo string) (string, error) {
 				row := readSiteRow{fn: fd.Name.Name, callee: cn, guard: "nested", pos: pos}
 				if spec.argIdx < len(c.Args) {
 					row.arg = read_exprText(fset, c.Args[spec.argIdx])
-					if id, ok := c.Args[spec.argIdx].(*ast.Ident); ok && params[id.Name] && !assigned[id.Name] {
-						row.argIsParam = true
+					if id, ok := c.Args[spec.argIdx].(*ast.Ident); ok {
+						row.argAssigns = assignCount[id.Name]
+						if params[id.Name] && !assigned[id.Name] {
+							row.argIsParam = true
+						}
 					}
 				} else {
 					row.callee = "unrecognised"
@@ -270,6 +287,53 @@ func extractReadSites(repo string) (string, error) {
 				rows = append(rows, row)
 				return true
 			})
+			// return statements of the functions that hand a location back
+			if locIdx, ok := readSiteReturns[fd.Name.Name]; ok {
+				var guardsSoFar []string
+				for i, st := range fd.Body.List {
+					var next ast.Stmt
+					if i+1 < len(fd.Body.List) {
+						next = fd.Body.List[i+1]
+					}
+					ctx := "nested"
+					if rs, ok := st.(*ast.ReturnStmt); ok {
+						_ = rs
+						ctx = strings.Join(guardsSoFar, ";")
+					} else if ifs, ok := st.(*ast.IfStmt); ok && ifs.Else == nil {
+						if ifs.Init == nil && containsHashTest(ifs.Cond) {
+							if b, ok := ifs.Cond.(*ast.BinaryExpr); ok && b.Op == token.LAND {
+								ctx = "in-hash-return"
+							}
+						} else if isErrNotNil(ifs.Cond) {
+							ctx = "in-err"
+						}
+					}
+					ast.Inspect(st, func(n ast.Node) bool {
+						if _, isLit := n.(*ast.FuncLit); isLit {
+							return false
+						}
+						rs, ok := n.(*ast.ReturnStmt)
+						if !ok {
+							return true
+						}
+						row := readSiteRow{fn: fd.Name.Name, callee: "return", guard: ctx, pos: fmt.Sprintf("%s:%d", name, fset.Position(rs.Pos()).Line)}
+						if locIdx < len(rs.Results) {
+							row.arg = read_exprText(fset, rs.Results[locIdx])
+							if id, ok := rs.Results[locIdx].(*ast.Ident); ok {
+								row.argAssigns = assignCount[id.Name]
+								row.argIsParam = params[id.Name] && !assigned[id.Name]
+							}
+						} else {
+							row.callee = "unrecognised"
+						}
+						rows = append(rows, row)
+						return true
+					})
+					if t := guardToken(st, next); t != "" {
+						guardsSoFar = append(guardsSoFar, t)
+					}
+				}
+			}
 			// mentions of the overridable reader / the default reader, and tracked names used as values
 			ast.Inspect(fd.Body, func(n ast.Node) bool {
 				switch x := n.(type) {
@@ -293,7 +357,7 @@ func extractReadSites(repo string) (string, error) {
 	var b strings.Builder
 	b.WriteString("-- GENERATED by go/cmd/extract (table ReadSites) from openapi3/*.go — do not edit\n")
 	b.WriteString("namespace KinModel.Gen\n\n")
-	b.WriteString("structure ReadSite where\n  fn : String\n  callee : String\n  guard : String\n  arg : String\n  argIsParam : Bool\n  lhs : String\n  pos : String\n  deriving DecidableEq, Repr\n\n")
+	b.WriteString("structure ReadSite where\n  fn : String\n  callee : String\n  guard : String\n  arg : String\n  argIsParam : Bool\n  lhs : String\n  pos : String\n  argAssigns : Nat\n  deriving DecidableEq, Repr\n\n")
 	fmt.Fprintf(&b, "-- rows: %d\n", len(rows))
 	b.WriteString("def readSites : List ReadSite := [\n")
 	for i, r := range rows {
@@ -301,7 +365,7 @@ func extractReadSites(repo string) (string, error) {
 		if i == len(rows)-1 {
 			sep = ""
 		}
-		fmt.Fprintf(&b, "  ⟨%q, %q, %q, %q, %v, %q, %q⟩%s\n", r.fn, r.callee, r.guard, r.arg, r.argIsParam, r.lhs, r.pos, sep)
+		fmt.Fprintf(&b, "  ⟨%q, %q, %q, %q, %v, %q, %q, %d⟩%s\n", r.fn, r.callee, r.guard, r.arg, r.argIsParam, r.lhs, r.pos, r.argAssigns, sep)
 	}
 	b.WriteString("]\n\nend KinModel.Gen\n")
 	return b.String(), nil
